@@ -38,9 +38,18 @@ class FlowFidelity:
         same_msg = rng.random() < 0.4
         tsets, abstract1 = [], []
         # group templates into template sets by kind, in order
-        for t, opts in tpls:
-            tsets.append(g.enc_set(g.tpl_set_id(opts), g.enc_tpl(t, opts), pad=rng.choice([0, 0, 0, 2]) if self.proto == "ipfix" else 0))
-            abstract1.append(("tpl", [(t, opts)]))
+        if rng.random() < 0.5:
+            # several template records in ONE template set (plain ones together, options ones together)
+            for kind in (False, True):
+                grp = [(t, o) for t, o in tpls if o == kind]
+                if grp:
+                    tsets.append(g.enc_set(g.tpl_set_id(kind), b"".join(g.enc_tpl(t, o) for t, o in grp),
+                                           pad=rng.choice([0, 0, 0, 2]) if self.proto == "ipfix" else 0))
+                    abstract1.append(("tpl", grp))
+        else:
+            for t, opts in tpls:
+                tsets.append(g.enc_set(g.tpl_set_id(opts), g.enc_tpl(t, opts), pad=rng.choice([0, 0, 0, 2]) if self.proto == "ipfix" else 0))
+                abstract1.append(("tpl", [(t, opts)]))
         dsets, abstract2, droprule = [], [], []
         for _ in range(rng.choice([1, 1, 2, 3])):
             t, opts = rng.choice(tpls)
